@@ -10,8 +10,10 @@ correspondence:  random entry configuration x random command sequences (setters,
                  entry snapshot (driver command `settings-run`); exhaustive small scope over the mode setters
 search (oracle): the theorem statements executed on the real snapshots (every exit restores the entry
                  observables and does not raise; refusal / force / idempotence of the mode setters; attribute
-                 scope of set_default_whitespace_chars) + parse behaviour of pre-existing / new / copied /
-                 built-in expressions around set_default_whitespace_chars.  Failing cases are shrunk.
+                 scope of set_default_whitespace_chars; leave_whitespace / ignore_whitespace change one flag; a
+                 copy's whiteChars do not depend on skipWhitespace) + parse behaviour of pre-existing / new / copied /
+                 leave_whitespace()d-then-copied / built-in expressions around set_default_whitespace_chars and
+                 context exits.  Failing cases are shrunk.
 The real settings are process-global: every case starts from and ends with a hard reset to the pristine
 import-time values, and batches run in forked workers.
 """
@@ -34,12 +36,24 @@ META = dict(
          "packrat_lr_exclusive + packrat_lr_never_both + parse_selector_follows_packrat (each setter refuses while the "
          "other mode is on unless force=True; never both on, and _parse is the caching function exactly while packrat is "
          "on, after any history), enablePackrat_idempotent/_twice, users_untouched (no setting change and no context "
-         "entry/exit touches an existing user expression). PARTIAL: default_ws_scope_partial and forward_ws_scope_partial speak about "
-         "the whiteChars/copyDefaultWhiteChars attributes (new expressions incl. MatchFirst/Or and Forward(), copies, "
+         "entry/exit touches an existing user expression unless the user calls "
+         "set_whitespace_chars / leave_whitespace / ignore_whitespace / <<= on it), "
+         "leave_ignore_only_flag (leave_whitespace()/ignore_whitespace() change only that expression's skipWhitespace), "
+         "copy_ws_whatever_skip (a copy gets set(current default) iff the source has copyDefaultWhiteChars - skipWhitespace "
+         "is not consulted; copying commutes with leave/ignore_whitespace), preParseWs_spec (the whitespace part of "
+         "preParse of a plain element skips nothing unless skipWhitespace and else exactly the longest prefix of "
+         "whiteChars characters), leave_copy_ignore_follows_default (leave_whitespace -> set_default_whitespace_chars(c) "
+         "-> copy -> ignore_whitespace: the copy skips exactly the characters of c, for every state / expression / c), "
+         "copy_after_exit_follows_entry_default (after any well-nested context body a copy of any default-following "
+         "expression, also one built or leave_whitespace()d inside, gets the entry default), alt_ws_scope. "
+         "PARTIAL: default_ws_scope_partial and forward_ws_scope_partial speak about "
+         "the whiteChars/copyDefaultWhiteChars/skipWhitespace attributes (new expressions incl. MatchFirst/Or and Forward(), copies, "
          "And/Group/Opt/... composites over existing expressions, `fwd <<= e` taking over e's set AND flag so that later "
          "copies of the Forward follow the default, copies of unassigned Forwards, built-ins, existing user "
          "expressions); that these attributes decide what an expression skips is checked on the real parser by the "
-         "oracle only (every parsable user expression at the end of every history, and the ws-behaviour battery). live_builtins_restored_though_unsynced: the pristine built-in line_start (own "
+         "oracle for composites (every parsable user expression at the end of every history - incl. directed histories "
+         "leave_whitespace -> default change / context entry / exit -> copy -> ignore_whitespace - and the ws-behaviour "
+         "battery); for a plain element it is preParseWs_spec over the transcribed preParse. live_builtins_restored_though_unsynced: the pristine built-in line_start (own "
          "set differs from the default) is changed inside and restored on exit (finding fixed by /repo e056afa). "
          "Cache/memo contents are not settings and are not modelled.",
     note="Trusted: Lean kernel; axioms propext/Classical.choice/Quot.sound; the Settings transcription (tied to /repo by "
@@ -47,7 +61,8 @@ META = dict(
          "command of random and exhaustive histories) and the class data regenerated from the live package into "
          "PPProofs/Props/Gen/Settings.lean; the Python snapshot function (class attributes, .size, ._capacity). "
          "Settings are assumed to be changed only through the public setters (direct assignment only for "
-         "verbose_stacktrace and __compat__ flags). Parse-time whitespace skipping is oracle-checked only.",
+         "verbose_stacktrace and __compat__ flags). Parse-time whitespace skipping of composites is oracle-checked only "
+         "(plain elements: transcribed preParse loop).",
     technique="Lean 4 proof over a transcribed settings/context machine + differential correspondence on histories",
     design="§5 C19",
 )
@@ -68,6 +83,12 @@ THEOREMS = [NS + t for t in (
     "new_expr_after_exit",
     "default_ws_scope_partial",
     "forward_ws_scope_partial",
+    "leave_ignore_only_flag",
+    "copy_ws_whatever_skip",
+    "preParseWs_spec",
+    "leave_copy_ignore_follows_default",
+    "copy_after_exit_follows_entry_default",
+    "alt_ws_scope",
 )]
 
 GEN_REL = "PPProofs/Props/Gen/Settings.lean"
@@ -198,8 +219,8 @@ def snapshot(W: World):
         _b(PE._packratEnabled), [cid, ck], ps, _b(PE._left_recursion_enabled), [mid, mk],
         [[n, _b(getattr(W.diag, n, None))] for n in W.diag._all_names],
         [[n, _b(getattr(W.compat, n, None))] for n in W.compat._all_names],
-        [[_wsset(e), _b(e.copyDefaultWhiteChars), _fwd_empty(pp, e)] for e in W.builtins],
-        [[_wsset(e), _b(e.copyDefaultWhiteChars), _fwd_empty(pp, e)] for e in W.users],
+        [[_wsset(e), _b(e.copyDefaultWhiteChars), _fwd_empty(pp, e), _b(e.skipWhitespace)] for e in W.builtins],
+        [[_wsset(e), _b(e.copyDefaultWhiteChars), _fwd_empty(pp, e), _b(e.skipWhitespace)] for e in W.users],
         len(W.objs),
     ]
 
@@ -239,6 +260,14 @@ def _new_user_expr(W, variant):
     if k == 2:
         return pp.Regex("ab+")
     return pp.CaselessLiteral("ab")
+
+
+def resolve_op(W: World, op, variant):
+    """the command as the model sees it: `["new"]` builds a leaf or, for some variants, a MatchFirst / Or over
+    an existing user expression (`newalt i`: these take the alternative's skipWhitespace over)"""
+    if not isinstance(op, str) and op[0] == "new" and variant % 6 >= 4 and W.users:
+        return ["newalt", variant % len(W.users)]
+    return op
 
 
 def apply_op(W: World, op, variant=0):
@@ -301,6 +330,16 @@ def apply_op(W: World, op, variant=0):
                         W.users[i] << W.users[j]
                     else:
                         W.users[i] <<= W.users[j]
+            elif k in ("leavews", "ignorews"):
+                if op[1] < len(W.users):
+                    e = W.users[op[1]]
+                    names = ("leave_whitespace", "leaveWhitespace") if k == "leavews" else \
+                        ("ignore_whitespace", "ignoreWhitespace")
+                    f = getattr(e, names[variant % 2])
+                    # `recursive` only decides whether *children* are replaced by (re-configured) copies
+                    r = f() if variant % 3 else f(recursive=False)
+                    if r is not e:
+                        raise common.HarnessError(f"{names[0]} did not return self")
             elif k == "exprws":
                 if op[1] < len(W.users):
                     e = W.users[op[1]]
@@ -325,8 +364,10 @@ def run_real(W: World, case):
             apply_op(W, op, i + len(op))
         entry = snapshot(W)
         stack, ctx_err, out, probes, last_ctx = [], False, [], [], None
+        resolved = []
         for i, c in enumerate(case["cmds"]):
             variant = i + len(c)
+            resolved.append(resolve_op(W, c, variant))
             if c in ("enter", "reenter"):
                 if c == "reenter" and last_ctx is not None:
                     ctx, last_ctx = last_ctx, None      # the very same object is entered again
@@ -377,7 +418,7 @@ def run_real(W: World, case):
             probes.append(_probe(W))
         if probes:
             probes[-1].append(_behaviour(W))
-        return entry, out, probes
+        return entry, out, probes, resolved
     finally:
         W.hard_reset()
 
@@ -507,14 +548,14 @@ def _worker(case):
     warnings.simplefilter("ignore")  # e.g. Forward.__del__ diagnostics, issued outside any catch_warnings block
     W = world()
     try:
-        entry, tr, probes = common.with_alarm(20, run_real, W, case)
+        entry, tr, probes, resolved = common.with_alarm(20, run_real, W, case)
     except common.CaseTimeout:
         W.hard_reset()
         return {"hang": True}
     line = dumps([Sym("settings-run")])[1:-1] + " " + dumps(cfg_sexp(W)) + " " + dumps(entry) + " " + dumps(
-        [cmd_sexp(c) for c in case["cmds"]])
+        [cmd_sexp(c) for c in resolved])
     o0 = obs(entry)
-    return {"line": line, "impl": dumps(tr), "problems": oracle(W, case, entry, tr, probes),
+    return {"line": line, "impl": dumps(tr), "problems": oracle(W, case, entry, tr, probes, resolved),
             "depth": max([t[2] for t in tr] + [0]), "errs": sorted({str(t[1]) for t in tr}),
             "nt": any(obs(t[0]) != o0 for t in tr)}
 
@@ -522,7 +563,7 @@ def _worker(case):
 # =================================================================================================
 # oracle: the theorem statements, on real snapshots
 # =================================================================================================
-def oracle(W, case, entry, tr, probes=None):
+def oracle(W, case, entry, tr, probes=None, resolved=None):
     """returns list of problems: dict(atom=<class of failure>, at=<command index>, expected=..., actual=..., theorem=...)"""
     probs = []
 
@@ -532,7 +573,7 @@ def oracle(W, case, entry, tr, probes=None):
     prev = entry
     stack = []
     last_ent = None
-    for i, (c, (snap, err, depth, ctx_err)) in enumerate(zip(case["cmds"], tr)):
+    for i, (c, (snap, err, depth, ctx_err)) in enumerate(zip(resolved or case["cmds"], tr)):
         err = str(err)
         o_prev, o_now = obs(prev), obs(snap)
         # -- never both modes (packrat_lr_never_both)
@@ -641,29 +682,53 @@ def oracle(W, case, entry, tr, probes=None):
                 if snap[I_USERS] != prev[I_USERS]:
                     add("setws-changes-existing-user-expression", i, prev[I_USERS], snap[I_USERS], "default_ws_scope_partial")
                 for j, (b0, b1) in enumerate(zip(prev[I_BUILTINS], snap[I_BUILTINS])):
-                    want = [w, True, b0[2]] if b0[1] is True else b0
+                    want = [w, True, b0[2], b0[3]] if b0[1] is True else b0
                     if b1 != want:
                         add("setws-builtin-wrong", i, {"builtin": str(W.builtins[j]), "value": want},
                             {"builtin": str(W.builtins[j]), "value": b1}, "default_ws_scope_partial")
                         break
             elif k in ("new", "newfwd"):
                 w = "".join(sorted(set(prev[I_WS])))
-                want = [w, True, k == "newfwd"]
+                want = [w, True, k == "newfwd", True]
                 if snap[I_USERS] != prev[I_USERS] + [want]:
                     add("new-expression-wrong-whitespace", i, want, snap[I_USERS][-1:], "default_ws_scope_partial")
+            elif k == "newalt":
+                if c[1] < len(prev[I_USERS]):
+                    w = "".join(sorted(set(prev[I_WS])))
+                    want = [w, True, False, prev[I_USERS][c[1]][3]]
+                    if snap[I_USERS] != prev[I_USERS] + [want]:
+                        add("new-alternation-wrong-whitespace", i, want, snap[I_USERS][-1:], "alt_ws_scope")
+            elif k in ("leavews", "ignorews"):
+                want = [list(u) for u in prev[I_USERS]]
+                if c[1] < len(want):
+                    want[c[1]][3] = k == "ignorews"
+                if snap[I_USERS] != want:
+                    add(f"{'leave' if k == 'leavews' else 'ignore'}_whitespace-changes-more-than-the-flag", i,
+                        {"expression": c[1], "users": want}, {"users": snap[I_USERS]}, "leave_ignore_only_flag")
+                if snap[:I_USERS] != prev[:I_USERS]:
+                    add("leave/ignore_whitespace-changes-a-setting-or-built-in", i, "no setting or built-in changes",
+                        "changed", "leave_ignore_only_flag")
+            elif k == "exprws":
+                want = [list(u) for u in prev[I_USERS]]
+                if c[1] < len(want):
+                    want[c[1]] = ["".join(sorted(set(c[2]))), c[3], want[c[1]][2], True]
+                if snap[I_USERS] != want:
+                    add("set_whitespace_chars-wrong-attributes", i, {"expression": c[1], "users": want},
+                        {"users": snap[I_USERS]}, "default_ws_scope_partial")
             elif k == "copy":
                 if c[1] < len(prev[I_USERS]):
                     e = prev[I_USERS][c[1]]
-                    want = [e[0], e[1], False] if e[2] is True else \
-                        ["".join(sorted(set(prev[I_WS]))), True, False] if e[1] is True else e
+                    # whatever e[3] (skipWhitespace) is: copy_ws_whatever_skip
+                    want = [e[0], e[1], False, e[3]] if e[2] is True else \
+                        ["".join(sorted(set(prev[I_WS]))), True, False, e[3]] if e[1] is True else e
                     if snap[I_USERS] != prev[I_USERS] + [want]:
                         add("copy-wrong-whitespace", i, {"copy of": e, "default": prev[I_WS], "copy": want},
-                            snap[I_USERS][-1:], "default_ws_scope_partial / forward_ws_scope_partial")
+                            snap[I_USERS][-1:], "copy_ws_whatever_skip")
             elif k == "wrap":
                 if c[1] < len(prev[I_USERS]):
                     e = prev[I_USERS][c[1]]
-                    if snap[I_USERS] != prev[I_USERS] + [[e[0], e[1], False]]:
-                        add("composite-does-not-inherit-whitespace", i, [e[0], e[1], False], snap[I_USERS][-1:],
+                    if snap[I_USERS] != prev[I_USERS] + [[e[0], e[1], False, e[3]]]:
+                        add("composite-does-not-inherit-whitespace", i, [e[0], e[1], False, e[3]], snap[I_USERS][-1:],
                             "default_ws_scope_partial")
             elif k == "fwdassign":
                 n = len(prev[I_USERS])
@@ -672,14 +737,14 @@ def oracle(W, case, entry, tr, probes=None):
                 if valid:
                     src = prev[I_USERS][c[2]]
                     want = list(prev[I_USERS])
-                    want[c[1]] = [src[0], src[1], False]
+                    want[c[1]] = [src[0], src[1], False, src[3]]
                     if snap[I_USERS] != want:
                         add("forward-assignment-wrong-whitespace-attributes", i,
                             {"assigned expression": src, "forward": want[c[1]]}, {"forward": snap[I_USERS][c[1]]},
                             "forward_ws_scope_partial")
                 elif snap[I_USERS] != prev[I_USERS]:
                     add("user-expression-changed", i, prev[I_USERS], snap[I_USERS], "users_untouched")
-        if (isinstance(c, str) or c[0] not in ("exprws", "fwdassign")) and snap[I_USERS][:len(prev[I_USERS])] != prev[I_USERS]:
+        if (isinstance(c, str) or c[0] not in ("exprws", "fwdassign", "leavews", "ignorews")) and snap[I_USERS][:len(prev[I_USERS])] != prev[I_USERS]:
             add("user-expression-changed", i, prev[I_USERS], snap[I_USERS], "users_untouched")
         prev = snap
     return probs
@@ -726,6 +791,8 @@ def ws_behaviour_case(chars, in_context):
               ("Group(Forward)", lambda: pp.Group(_assigned_forward(pp, pp.Word("ab"))), "ab"),
               ("Suppress(Forward)+Empty", lambda: pp.Suppress(_assigned_forward(pp, pp.Literal("ab"))) + pp.Empty(), "ab")]
         pre = [(n, f(), body) for n, f, body in mk]
+        # expressions that currently do not skip at all; they still follow the default (copyDefaultWhiteChars)
+        tight = [(n + ".leave_whitespace()", f().leave_whitespace(), body) for n, f, body in mk]
         own = pp.Word("ab").set_whitespace_chars("-")
         builtin = [("common.integer", pp.common.integer, "12"), ("quoted_string", pp.quoted_string, '"q"')]
         ctx = None
@@ -746,6 +813,15 @@ def ws_behaviour_case(chars, in_context):
             expect("pre-existing " + n, e, body, before, "existing-user-expression-changed")
             expect("copy of pre-existing " + n, e.copy(), body, inside, "copy-does-not-follow-default")
             expect("pre-existing " + n + "('name')", e("name"), body, inside, "copy-does-not-follow-default")
+        for n, e, body in tight:
+            expect("pre-existing " + n, e, body, set(), "existing-user-expression-changed")
+            expect("copy of pre-existing " + n, e.copy(), body, set(), "copy-of-leave_whitespace-skips")
+            for how, cpy in (("copy()", e.copy()), ("expr()", e()), ("expr('name')", e("name")),
+                             ("set_results_name('name')", e.set_results_name("name"))):
+                expect(f"{how} of pre-existing {n}, then ignore_whitespace()", cpy.ignore_whitespace(), body, inside,
+                       "copy-of-leave_whitespace-does-not-follow-default")
+            expect("pre-existing " + n + " (after copies)", e, body, set(), "existing-user-expression-changed")
+        inner_tight = [(n + ".leave_whitespace()", f().leave_whitespace(), body) for n, f, body in mk]
         for n, e, body in pre[:2]:
             expect("new composite over pre-existing " + n, pp.Group(e), body, before, "composite-does-not-inherit-whitespace")
         expect("pre-existing with own whitespace", own, "ab", {"-"}, "existing-user-expression-changed")
@@ -762,6 +838,11 @@ def ws_behaviour_case(chars, in_context):
                 expect("builtin after exit " + n, e, body, before, "builtin-after-exit")
             for n, e, body in pre:
                 expect("pre-existing after exit " + n, e, body, before, "existing-user-expression-changed")
+            for where, lst in (("before", tight), ("inside", inner_tight)):
+                for n, e, body in lst:
+                    expect(f"after exit: {n} built {where} the context", e, body, set(), "existing-user-expression-changed")
+                    expect(f"after exit: copy of {n} built {where} the context, then ignore_whitespace()",
+                           e.copy().ignore_whitespace(), body, before, "copy-after-exit-does-not-follow-entry-default")
     finally:
         W.hard_reset()
     return probs
@@ -803,8 +884,9 @@ def gen_facts(W):
     d, c, p = W.diag, W.compat, W.pristine
     ls = lambda xs: "[" + ", ".join(_lstr(x) for x in xs) + "]"
     bl = ",\n  ".join(
-        "⟨[" + ", ".join(_lchar(ch) for ch in sorted(w)) + "], " + ("true" if cd else "false") + ", " + ("true" if fe else "false") + "⟩"
-        for (w, cd, _s), fe in zip(p["builtins"], p["builtins_fwd_empty"]))
+        "⟨[" + ", ".join(_lchar(ch) for ch in sorted(w)) + "], " + ("true" if cd else "false") + ", " + ("true" if fe else "false") + ", "
+        + ("true" if sk else "false") + "⟩"
+        for (w, cd, sk), fe in zip(p["builtins"], p["builtins_fwd_empty"]))
     return f"""import PPModel.Mod.Settings
 /-! GENERATED by harness/props/c19.py from the live package in /repo (class data of `__diag__` / `__compat__`,
     import-time defaults, whitespace attributes of the distinct objects in `core._builtin_exprs`).
@@ -845,7 +927,7 @@ def _track(kinds, op):
     k = op[0]
     if k == "newfwd":
         kinds.append("fwd")
-    elif k == "new":
+    elif k in ("new", "newalt"):
         kinds.append("other")
     elif k == "wrap" and op[1] < len(kinds):
         kinds.append("other")
@@ -859,7 +941,7 @@ def gen_expr_op(rng, kinds):
     n = len(kinds)
     fwds = [i for i, k in enumerate(kinds) if k == "fwd"]
     k = rng.choice(["setws", "setws", "setws", "new", "newfwd", "fwdassign", "fwdassign", "wrap", "wrap", "copy",
-                    "copy", "copy", "exprws"])
+                    "copy", "copy", "exprws", "leavews", "leavews", "ignorews"])
     if k == "setws" or n == 0:
         return ["setws", rng.choice(WS_CHOICES)] if k == "setws" else rng.choice([["new"], ["newfwd"]])
     if k == "fwdassign":
@@ -868,7 +950,7 @@ def gen_expr_op(rng, kinds):
         i = rng.choice(fwds)
         j = rng.choice([x for x in range(n) if x != i])
         return ["fwdassign", i, j]
-    if k in ("wrap", "copy"):
+    if k in ("wrap", "copy", "leavews", "ignorews"):
         return [k, rng.randrange(n)]
     if k == "exprws":
         return ["exprws", rng.randrange(n), rng.choice(WS_CHOICES), rng.random() < 0.3]
@@ -947,6 +1029,82 @@ def gen_case(rng, W, malformed=False, expr_heavy=False):
     return {"setup": setup, "cmds": cmds}
 
 
+def gen_ws_toggle_case(rng, W):
+    """directed histories: an expression (leaf, wrapper, assigned Forward, MatchFirst/Or) is leave_whitespace()d, the
+    default whitespace changes (directly, by entering / leaving a context), a copy is made and told to
+    ignore_whitespace() again - inside the same context, in a nested one, and after the context in which the
+    original was built has been left; random expression operations in between"""
+    kinds, setup, cmds = [], [], []
+
+    def emit(dst, op):
+        _track(kinds, op)
+        dst.append(op)
+
+    def noise(dst, p=0.25):
+        while rng.random() < p:
+            emit(dst, gen_expr_op(rng, kinds))
+
+    def build(dst):
+        """a source expression; returns its index"""
+        emit(dst, ["new"])
+        i = len(kinds) - 1
+        r = rng.random()
+        if r < 0.25:
+            emit(dst, ["wrap", i])
+            i = len(kinds) - 1
+        elif r < 0.45:
+            emit(dst, ["newfwd"])
+            emit(dst, ["fwdassign", len(kinds) - 1, i])
+            i = len(kinds) - 1
+        return i
+
+    def copy_and_ignore(dst, i):
+        emit(dst, ["copy", i])
+        k = len(kinds) - 1
+        noise(dst, 0.1)
+        if rng.random() < 0.85:
+            dst.append(["ignorews", k])
+        return k
+
+    if rng.random() < 0.4:
+        setup.append(["setws", rng.choice(WS_CHOICES)])
+    outer = None
+    if rng.random() < 0.5:
+        outer = build(setup)
+        if rng.random() < 0.8:
+            setup.append(["leavews", outer])
+    depth = 0
+    cmds.append("enter")
+    depth += 1
+    noise(cmds)
+    if rng.random() < 0.6:
+        cmds.append(["setws", rng.choice(WS_CHOICES)])
+    inner = build(cmds)
+    noise(cmds, 0.15)
+    if rng.random() < 0.85:
+        cmds.append(["leavews", inner])
+    if rng.random() < 0.4:
+        cmds.append(rng.choice(["enter", "reenter"]))
+        depth += 1
+    if rng.random() < 0.8:
+        cmds.append(["setws", rng.choice(WS_CHOICES)])
+    noise(cmds, 0.15)
+    for src in (inner, outer):
+        if src is not None and rng.random() < 0.7:
+            copy_and_ignore(cmds, src)
+    while depth > 0:
+        cmds.append(rng.choice(["exit", "exit", "exitcopy"]))
+        depth -= 1
+        noise(cmds, 0.1)
+        for src in (inner, outer):
+            if src is not None and rng.random() < 0.6:
+                copy_and_ignore(cmds, src)
+    if rng.random() < 0.3:
+        cmds.append(["setws", rng.choice(WS_CHOICES)])
+        copy_and_ignore(cmds, inner)
+    return {"setup": setup, "cmds": cmds}
+
+
 MODE_ENTRIES = [[], [["packrat", None, False]], [["packrat", 64, False]], [["lr", None, False]], [["lr", 8, False]]]
 MODE_OPS = [["packrat", 5, False], ["packrat", 5, True], ["packrat", None, True], ["lr", None, False],
             ["lr", None, True], ["lr", 3, True], ["lr", 0, True], ["disable"], "enter", "exit", "reenter",
@@ -1018,15 +1176,21 @@ def run(ctx):
         "unbalanced enter/exit; expr-histories = 80% operations on user expressions (leaves, MatchFirst/Or, Forward "
         "created / assigned with <<= before or after a default-whitespace change, Group/And/Suppress/Opt/OneOrMore/"
         "ZeroOrMore wrappers over leaves and over Forwards, copy()/expr()/expr('name'), set_whitespace_chars) and "
-        "set_default_whitespace_chars inside nested contexts, attributes compared after every command and the "
-        "characters really skipped by every parsable user expression compared with its attributes at the end; exhaustive stream = 5 mode entry configurations x all sequences up to length L over "
+        "set_default_whitespace_chars inside nested contexts, leave_whitespace()/ignore_whitespace() (both spellings, "
+        "recursive or not) on any user expression, attributes (whiteChars, copyDefaultWhiteChars, skipWhitespace) "
+        "compared after every command and the "
+        "characters really skipped by every parsable user expression compared with its attributes at the end; "
+        "ws-toggle-histories = directed: a leaf / wrapper / assigned Forward / MatchFirst is built (before or inside a "
+        "context) and leave_whitespace()d, the default changes (setter, nested enter, exits), copies are made inside and "
+        "after the contexts and ignore_whitespace()d, random expression operations in between; exhaustive stream = 5 mode entry configurations x all sequences up to length L over "
         "13 mode commands; non-trivial = the body changes at least one observable setting; every built-in's whiteChars "
         "is compared at every context exit (the witness of the fixed finding unsynced_builtin_whitechars_not_restored "
         "runs from the corpus as an ordinary regression case)"
     )
     ctx.assumptions.append(
         "C19: cache/memo contents are not settings and are not modelled; whitespace *skipping* behaviour is "
-        "oracle-checked on the real parser, the Lean theorems speak about the whiteChars/copyDefaultWhiteChars attributes; "
+        "oracle-checked on the real parser for composites, the Lean theorems speak about the whiteChars/"
+        "copyDefaultWhiteChars/skipWhitespace attributes and the transcribed whitespace loop of preParse; "
         "settings are changed only through the public setters listed in PP.Settings.Op (direct assignment only for "
         "verbose_stacktrace and __compat__ flags)")
 
@@ -1043,7 +1207,8 @@ def run(ctx):
         ("exhaustive-modes", exhaustive_mode_cases(ctx.budget(2, 3))),
         ("histories", [gen_case(rng, W) for _ in range(ctx.budget(24000, 300000))]),
         ("malformed", [gen_case(rng, W, malformed=True) for _ in range(ctx.budget(4000, 50000))]),
-        ("expr-histories", [gen_case(rng, W, expr_heavy=True) for _ in range(ctx.budget(12000, 120000))]),
+        ("expr-histories", [gen_case(rng, W, expr_heavy=True) for _ in range(ctx.budget(9000, 90000))]),
+        ("ws-toggle-histories", [gen_ws_toggle_case(rng, W) for _ in range(ctx.budget(4000, 40000))]),
     ]
     all_problems = []  # (case, problem)
     diff_cases = []
@@ -1087,7 +1252,7 @@ def run(ctx):
                     samples=[{"chars": "x", "in_context": True}])
 
     # ---- search: a broken obligation / correspondence diff alone is not a violation ------------------------
-    if (not proof_ok or diff_cases) and not all_problems:
+    if (not proof_ok or diff_cases or ctx.broken) and not all_problems:
         srng = ctx.subrng("search")
         extra = []
         for c in diff_cases[:50]:
@@ -1097,6 +1262,8 @@ def run(ctx):
                 extra.append({"setup": c["setup"], "cmds": ["enter", *pre, *(["exit"] * max(d + 1, 1))]})
         extra += exhaustive_mode_cases(3)
         extra += [gen_case(srng, W) for _ in range(ctx.budget(20000, 60000))]
+        extra += [gen_case(srng, W, expr_heavy=True) for _ in range(ctx.budget(8000, 30000))]
+        extra += [gen_ws_toggle_case(srng, W) for _ in range(ctx.budget(6000, 30000))]
         res = common.pmap(_worker, extra)
         W.hard_reset()
         n_p = 0
@@ -1124,9 +1291,14 @@ def run(ctx):
             c = shrink(c, a)
             ps = [q for q in problems_of(c) if q["atom"] == a]
             p = ps[0] if ps else p
+        elif "ws_behaviour" in c:
+            # which expression of the battery: built how, copied how, parsed where
+            c = {"ws_behaviour": {**c["ws_behaviour"], "expression": p["at"]}}
         ctx.fail_input(a, c, p["expected"], p["actual"], theorem=(NS + p["theorem"]) if p["theorem"] and " " not in p["theorem"] else p["theorem"],
                        how="harness.props.c19.run_real(world(), case): apply case['setup'] from the pristine import state, "
-                           "then case['cmds'] ('enter'/'exit' = reset_pyparsing_context().__enter__/__exit__)")
+                           "then case['cmds'] ('enter'/'exit' = reset_pyparsing_context().__enter__/__exit__); "
+                           "case['ws_behaviour']: harness.props.c19.ws_behaviour_case(chars, in_context) - expected/"
+                           "actual are the probe characters the named expression skips before its match")
     W.hard_reset()
 
 
@@ -1135,7 +1307,10 @@ def replay(data):
     case = data.get("case")
     if isinstance(case, dict) and "ws_behaviour" in case:
         b = case["ws_behaviour"]
-        return bool(ws_behaviour_case(b["chars"], b["in_context"]))
+        probs = ws_behaviour_case(b["chars"], b["in_context"])
+        if data.get("kind") and "expression" in b:
+            return any(p["atom"] == data["kind"] and p["at"] == b["expression"] for p in probs)
+        return bool(probs)
     if isinstance(case, dict) and "cmds" in case:
         atom = data.get("kind")
         probs = problems_of({"setup": case.get("setup", []), "cmds": case["cmds"]})
